@@ -5,6 +5,7 @@
 package astits
 
 //@ func updateCRC32
+//@   opt sweep:C03
 //@   ensures [C10] fold: result == crcFold(old(crc32), bs, 0, len(bs))
 //@   loop 0 invariant [C10] idx: rangeindex == iter - 1 && iter <= len(bs)
 //@   loop 0 invariant [C10] acc: crc32 == crcFold(old(crc32), bs, 0, iter)
@@ -12,12 +13,14 @@ package astits
 //@   loop 0 decreases [C10] len(bs) - iter
 
 //@ func computeCRC32
+//@   opt sweep:C03
 //@   ensures [C10] init: result == crcFold(0xFFFFFFFF, bs, 0, len(bs))
 
 // ---------------------------------------------------------------------------
 // packet.go: TS packet header / adaptation field (ISO/IEC 13818-1 2.4.3.2-5)
 
 //@ func parsePacketHeader
+//@   opt sweep:C03
 //@   requires itOK(i)
 //@   modifies i.offset
 //@   let o = old(i.offset)
@@ -37,6 +40,7 @@ package astits
 //@   ensures [C11] cc: err == nil ==> h.ContinuityCounter == b2 & 0x0f
 
 //@ func parsePCR
+//@   opt sweep:C03
 //@   requires itOK(i)
 //@   modifies i.offset
 //@   let o = old(i.offset)
@@ -49,6 +53,7 @@ package astits
 //@   ensures [C11] ext: err == nil ==> cr.Extension == i64(v & 0x1ff)
 
 //@ func payloadOffset
+//@   opt sweep:C03
 //@   requires h.HasAdaptationField ==> a != nil
 //@   ensures [C11,C02,C08] off: offset == offsetStart + 3 + ite(h.HasAdaptationField, 1 + a.Length, 0)
 
@@ -56,6 +61,7 @@ package astits
 // data_pes.go: PES header (ISO/IEC 13818-1 2.4.3.6-7)
 
 //@ func parsePTSOrDTS
+//@   opt sweep:C03
 //@   requires itOK(i)
 //@   modifies i.offset
 //@   let o = old(i.offset)
@@ -66,6 +72,7 @@ package astits
 //@   ensures [C12,C11] base: err == nil ==> cr.Base == i64(old(decTS33(i.bs, i.offset))) && cr.Extension == 0
 
 //@ func parseESCR
+//@   opt sweep:C03
 //@   requires itOK(i)
 //@   modifies i.offset
 //@   let o = old(i.offset)
@@ -77,6 +84,7 @@ package astits
 //@   ensures [C12] ext: err == nil ==> cr.Extension == i64(old(decESCRExt(i.bs, i.offset)))
 
 //@ func parseDSMTrickMode
+//@   opt sweep:C03
 //@   let c = i >> 5
 //@   ensures [C12,C16] fresh: m != nil && fresh(m)
 //@   ensures [C12] control: m.TrickModeControl == c
@@ -95,12 +103,14 @@ package astits
 // dvb.go: BCD durations (EN 300 468 Annex C)
 
 //@ func parseDVBDurationByte
+//@   opt sweep:C03
 //@   ensures [C15] bcd: result == bcd(i)
 
 //@ func dvbDurationByteRepresentation
 //@   ensures [C15] repr: result == bcdRepr(n)
 
 //@ func parseDVBDurationMinutes
+//@   opt sweep:C03
 //@   requires itOK(i)
 //@   modifies i.offset
 //@   let o = old(i.offset)
@@ -110,6 +120,7 @@ package astits
 //@   ensures [C15] value: err == nil ==> d == (bcd(old(ib(i, 0))) * 3600 + bcd(old(ib(i, 1))) * 60) * 1000000000
 
 //@ func parseDVBDurationSeconds
+//@   opt sweep:C03
 //@   requires itOK(i)
 //@   modifies i.offset
 //@   let o = old(i.offset)
@@ -135,6 +146,7 @@ package astits
 
 // Adaptation field (2.4.3.4-5). Offsets are relative to the length byte.
 //@ func parsePacketAdaptationField
+//@   opt sweep:C03
 //@   requires itOK(i)
 //@   modifies i.offset
 //@   let o = old(i.offset)
@@ -209,9 +221,11 @@ package astits
 // like repository functions (these are the foundation of every parser).
 
 //@ func astikit.NewBytesIterator
+//@   opt sweep:C03
 //@   ensures new: result != nil && fresh(result) && result.bs == bs && result.offset == 0
 
 //@ func (*astikit.BytesIterator).NextByte
+//@   opt sweep:C03
 //@   requires itOK(i)
 //@   modifies i.offset
 //@   ensures erriff: (err != nil) == (len(i.bs) < old(i.offset) + 1)
@@ -219,6 +233,7 @@ package astits
 //@   ensures fail: err != nil ==> i.offset == old(i.offset)
 
 //@ func (*astikit.BytesIterator).NextBytes
+//@   opt sweep:C03
 //@   requires itOK(i) && 0 <= n && n < 0x1000000000000
 //@   modifies i.offset
 //@   ensures erriff: (err != nil) == (len(i.bs) < old(i.offset) + n)
@@ -227,6 +242,7 @@ package astits
 //@   ensures fail: err != nil ==> i.offset == old(i.offset) && len(bs) == 0 && bs == nil
 
 //@ func (*astikit.BytesIterator).NextBytesNoCopy
+//@   opt sweep:C03
 //@   requires itOK(i) && 0 <= n && n < 0x1000000000000
 //@   modifies i.offset
 //@   ensures erriff: (err != nil) == (len(i.bs) < old(i.offset) + n)
@@ -234,28 +250,34 @@ package astits
 //@   ensures fail: err != nil ==> i.offset == old(i.offset) && len(bs) == 0 && bs == nil
 
 //@ func (*astikit.BytesIterator).Seek
+//@   opt sweep:C03
 //@   requires i != nil
 //@   modifies i.offset
 //@   ensures seek: i.offset == n
 
 //@ func (*astikit.BytesIterator).Skip
+//@   opt sweep:C03
 //@   requires i != nil
 //@   modifies i.offset
 //@   ensures skip: i.offset == old(i.offset) + n
 
 //@ func (*astikit.BytesIterator).HasBytesLeft
+//@   opt sweep:C03
 //@   requires i != nil
 //@   ensures has: result == (i.offset < len(i.bs))
 
 //@ func (*astikit.BytesIterator).Offset
+//@   opt sweep:C03
 //@   requires i != nil
 //@   ensures off: result == i.offset
 
 //@ func (*astikit.BytesIterator).Len
+//@   opt sweep:C03
 //@   requires i != nil
 //@   ensures len: result == len(i.bs)
 
 //@ func (*astikit.BytesIterator).Dump
+//@   opt sweep:C03
 //@   requires itOK(i)
 //@   modifies i.offset
 //@   let o = old(i.offset)
@@ -266,6 +288,7 @@ package astits
 // parsePacket (2.4.3.2): sync byte at 0, then the last 187 bytes of the (possibly
 // larger than 188 bytes) packet buffer hold header, adaptation field and payload.
 //@ func parsePacket
+//@   opt sweep:C03
 //@   requires itOK(i) && i.offset == 0 && len(i.bs) >= 188
 //@   modifies i.offset
 //@   let N = len(i.bs)
@@ -290,6 +313,7 @@ package astits
 
 // PES optional header (2.4.3.7). Offsets relative to the first flag byte.
 //@ func parsePESOptionalHeader
+//@   opt sweep:C03
 //@   requires itOK(i)
 //@   modifies i.offset
 //@   let o = old(i.offset)
@@ -322,7 +346,7 @@ package astits
 //@   let oExt2 = oPSTD + ite(hasPSTD, 2, 0)
 //@   let e2len = int(old(ib(i, oExt2)) & 0x7f)
 //@   let consumed = ite(hasExt, ite(hasExt2, oExt2 + 1 + e2len, oExt2), oExtF)
-//@   split hasExt, ind == 2, ind == 3, hasExt2
+//@   split hasExt, ind == 2, ind == 3, hasExt2, hasPD, hasPSTD, hasESCR
 //@   at read PESOptionalHeader.PTSDTSIndicator#0 assert fInd: h.PTSDTSIndicator == ind
 //@   at read PESOptionalHeader.HasESCR#0 assert fESCR: h.HasESCR == hasESCR
 //@   at read PESOptionalHeader.HasESCR#0 assert cESCR: i.offset == o + oESCR
@@ -371,6 +395,7 @@ package astits
 //@   ensures [C12,C16] ext2fresh: err == nil && hasExt2 && e2len > 0 ==> fresh(h.Extension2Data)
 
 //@ func parsePESHeader
+//@   opt sweep:C03
 //@   requires itOK(i)
 //@   modifies i.offset
 //@   let o = old(i.offset)
@@ -384,6 +409,7 @@ package astits
 //@   ensures [C12] start: err == nil ==> dataStart == ite(hasOpt, o + 6 + int(old(ib(i, 5))), o + 3)
 
 //@ func parsePESData
+//@   opt sweep:C03
 //@   requires itOK(i) && len(i.bs) >= 3
 //@   modifies i.offset
 //@   let sid = old(i.bs[3])
@@ -599,3 +625,223 @@ package astits
 //@   ensures [W] n: err == nil && payloadBytesWritten == np && totalBytesWritten == hdr + np && wN(w) == n0 + hdr + np && aligned(w)
 //@   ensures [C12,C01,C16] data: sub(wD(w), n0 + hdr, np) == bytesOf(payloadLeft[:np])
 //@   ensures [C18] surfaced: wF(w) != old(wF(w)) ==> err != nil
+
+// ---------------------------------------------------------------------------
+// No-panic sweep (C03): skeleton contracts for the remaining parsers. Each requires a valid
+// iterator, may only move it, and keeps it valid through its loops.
+
+//@ func newDescriptorAC3
+//@   requires itOK(i)
+//@   modifies i.offset
+//@   opt sweep:C03
+
+//@ func newDescriptorAVCVideo
+//@   requires itOK(i)
+//@   modifies i.offset
+//@   opt sweep:C03
+
+//@ func newDescriptorComponent
+//@   requires itOK(i)
+//@   modifies i.offset
+//@   opt sweep:C03
+
+//@ func newDescriptorContent
+//@   requires itOK(i)
+//@   modifies i.offset
+//@   loop 0 invariant itOK(i)
+//@   opt sweep:C03
+
+//@ func newDescriptorDataStreamAlignment
+//@   requires itOK(i)
+//@   modifies i.offset
+//@   opt sweep:C03
+
+//@ func newDescriptorEnhancedAC3
+//@   requires itOK(i)
+//@   modifies i.offset
+//@   opt sweep:C03
+
+//@ func newDescriptorExtendedEvent
+//@   requires itOK(i)
+//@   modifies i.offset
+//@   loop 0 invariant itOK(i)
+//@   opt sweep:C03
+
+//@ func newDescriptorExtendedEventItem
+//@   requires itOK(i)
+//@   modifies i.offset
+//@   opt sweep:C03
+
+//@ func newDescriptorExtension
+//@   requires itOK(i)
+//@   modifies i.offset
+//@   opt sweep:C03
+
+//@ func newDescriptorExtensionSupplementaryAudio
+//@   requires itOK(i)
+//@   modifies i.offset
+//@   opt sweep:C03
+
+//@ func newDescriptorISO639LanguageAndAudioType
+//@   requires itOK(i)
+//@   modifies i.offset
+//@   opt sweep:C03
+
+//@ func newDescriptorLocalTimeOffset
+//@   requires itOK(i)
+//@   modifies i.offset
+//@   loop 0 invariant itOK(i)
+//@   opt sweep:C03
+
+//@ func newDescriptorMaximumBitrate
+//@   requires itOK(i)
+//@   modifies i.offset
+//@   opt sweep:C03
+
+//@ func newDescriptorNetworkName
+//@   requires itOK(i)
+//@   modifies i.offset
+//@   opt sweep:C03
+
+//@ func newDescriptorParentalRating
+//@   requires itOK(i)
+//@   modifies i.offset
+//@   loop 0 invariant itOK(i)
+//@   opt sweep:C03
+
+//@ func newDescriptorPrivateDataIndicator
+//@   requires itOK(i)
+//@   modifies i.offset
+//@   opt sweep:C03
+
+//@ func newDescriptorPrivateDataSpecifier
+//@   requires itOK(i)
+//@   modifies i.offset
+//@   opt sweep:C03
+
+//@ func newDescriptorRegistration
+//@   requires itOK(i)
+//@   modifies i.offset
+//@   opt sweep:C03
+
+//@ func newDescriptorService
+//@   requires itOK(i)
+//@   modifies i.offset
+//@   opt sweep:C03
+
+//@ func newDescriptorShortEvent
+//@   requires itOK(i)
+//@   modifies i.offset
+//@   opt sweep:C03
+
+//@ func newDescriptorStreamIdentifier
+//@   requires itOK(i)
+//@   modifies i.offset
+//@   opt sweep:C03
+
+//@ func newDescriptorSubtitling
+//@   requires itOK(i)
+//@   modifies i.offset
+//@   loop 0 invariant itOK(i)
+//@   opt sweep:C03
+
+//@ func newDescriptorTeletext
+//@   requires itOK(i)
+//@   modifies i.offset
+//@   loop 0 invariant itOK(i)
+//@   opt sweep:C03
+
+//@ func newDescriptorUnknown
+//@   requires itOK(i)
+//@   modifies i.offset
+//@   opt sweep:C03
+
+//@ func newDescriptorVBIData
+//@   requires itOK(i)
+//@   modifies i.offset
+//@   loop 0 invariant itOK(i)
+//@   loop 1 invariant itOK(i)
+//@   loop 2 invariant itOK(i)
+//@   opt sweep:C03
+
+//@ func parseCRC32
+//@   requires itOK(i)
+//@   modifies i.offset
+//@   opt sweep:C03
+
+//@ func parseDVBTime
+//@   requires itOK(i)
+//@   modifies i.offset
+//@   opt sweep:C03
+
+//@ func parseDescriptors
+//@   requires itOK(i)
+//@   modifies i.offset
+//@   loop 0 invariant itOK(i)
+//@   opt sweep:C03
+
+//@ func parseEITSection
+//@   requires itOK(i)
+//@   modifies i.offset
+//@   loop 0 invariant itOK(i)
+//@   opt sweep:C03
+
+//@ func parseNITSection
+//@   requires itOK(i)
+//@   modifies i.offset
+//@   loop 0 invariant itOK(i)
+//@   opt sweep:C03
+
+//@ func parsePATSection
+//@   requires itOK(i)
+//@   modifies i.offset
+//@   loop 0 invariant itOK(i)
+//@   opt sweep:C03
+
+//@ func parsePMTSection
+//@   requires itOK(i)
+//@   modifies i.offset
+//@   loop 0 invariant itOK(i)
+//@   opt sweep:C03
+
+//@ func parsePSIData
+//@   requires itOK(i)
+//@   modifies i.offset
+//@   loop 0 invariant itOK(i)
+//@   opt sweep:C03
+
+//@ func parsePSISection
+//@   requires itOK(i)
+//@   modifies i.offset
+//@   opt sweep:C03
+
+//@ func parsePSISectionHeader
+//@   requires itOK(i)
+//@   modifies i.offset
+//@   opt sweep:C03
+
+//@ func parsePSISectionSyntax
+//@   requires itOK(i)
+//@   modifies i.offset
+//@   opt sweep:C03
+
+//@ func parsePSISectionSyntaxData
+//@   requires itOK(i)
+//@   modifies i.offset
+//@   opt sweep:C03
+
+//@ func parsePSISectionSyntaxHeader
+//@   requires itOK(i)
+//@   modifies i.offset
+//@   opt sweep:C03
+
+//@ func parseSDTSection
+//@   requires itOK(i)
+//@   modifies i.offset
+//@   loop 0 invariant itOK(i)
+//@   opt sweep:C03
+
+//@ func parseTOTSection
+//@   requires itOK(i)
+//@   modifies i.offset
+//@   opt sweep:C03
